@@ -583,6 +583,8 @@ pub fn boxes_for(id: &str, quick: bool) -> Vec<Box_> {
     match id {
         "C01" => {
             for ana in [Ana::FpP, Ana::FpNp, Ana::FpLp, Ana::FpFl] {
+                // the simplest systems first: a single task (self-interference only)
+                v.push(mk("1 task T<=6 J<=12 C<=4 + curves", ana, 1, with_curves(sporadic_grid(6, 12)), 4, &[], false));
                 if quick {
                     v.push(mk("2 tasks T<=5 J<=2 C<=2", ana, 2, sporadic_grid(5, 2), 2, &[], false));
                     v.push(mk("2 tasks curves C<=2", ana, 2, with_curves(sporadic_grid(3, 1)), 2, &[], false));
@@ -607,7 +609,11 @@ pub fn boxes_for(id: &str, quick: bool) -> Vec<Box_> {
         }
         "C02" => {
             for ana in [Ana::EdfP, Ana::EdfNp, Ana::EdfLp, Ana::EdfFl] {
+                v.push(mk("1 task T<=6 J<=12 C<=4 + curves D{1,5,20}", ana, 1, with_curves(sporadic_grid(6, 12)), 4, &[1, 5, 20], false));
                 if quick {
+                    v.push(mk("3 tasks T{3,6,10} J{0,3} C<=2 D{3,20}", ana, 3,
+                        [3u64, 6, 10].iter().flat_map(|t| [0u64, 3].into_iter().map(move |j| ArrSpec::Sporadic { t: *t, j })).collect(),
+                        if matches!(ana, Ana::EdfLp | Ana::EdfFl) { 1 } else { 2 }, &[3, 20], false));
                     v.push(mk("2 tasks T<=5 J<=2 C<=2 D{1,3,6}", ana, 2, sporadic_grid(5, 2), 2, &[1, 3, 6], false));
                     v.push(mk("2 tasks curves C<=2 D{2,5}", ana, 2, with_curves(sporadic_grid(3, 1)), 2, &[2, 5], false));
                 } else {
@@ -618,6 +624,7 @@ pub fn boxes_for(id: &str, quick: bool) -> Vec<Box_> {
             }
         }
         "C03" => {
+            v.push(mk("1 task T<=6 J<=12 C<=4 + curves", Ana::Fifo, 1, with_curves(sporadic_grid(6, 12)), 4, &[], false));
             if quick {
                 v.push(mk("2 tasks T<=6 J<=3 C<=3", Ana::Fifo, 2, sporadic_grid(6, 3), 3, &[], false));
                 v.push(mk("3 tasks T<=4 J<=1 C<=2", Ana::Fifo, 3, sporadic_grid(4, 1), 2, &[], false));
@@ -647,6 +654,7 @@ pub fn boxes_for(id: &str, quick: bool) -> Vec<Box_> {
                 g
             };
             for ana in [Ana::FpP, Ana::FpNp, Ana::Fifo] {
+                v.push(mk("1 task T<=6 J<=12 C<=4 +periodic +extcurves", ana, 1, exact(6, 12), 4, &[], true));
                 if quick {
                     v.push(mk("2 tasks T<=5 J<=2 C<=2 +periodic +extcurves", ana, 2, exact(5, 2), 2, &[], true));
                     v.push(mk("3 tasks T<=4 J<=1 C<=2", ana, 3, sporadic_grid(4, 1), 2, &[], true));
